@@ -202,6 +202,10 @@ BASES = [
         'nc_d-400_consumer_use_tax_wkst.out_of_state_purchases': '1437', 'nc_d-400_consumer_use_tax_wkst.county_tax_pct': '0.07',
         'nc_d-400_consumer_use_tax_wkst.out_of_state_purchases_pre_oct': '1004', 'nc_d-400_consumer_use_tax_wkst.county_tax_pct_pre_oct': '0.07',
         'nc_d-400_consumer_use_tax_wkst.out_of_state_purchases_post_oct': '433', 'nc_d-400_consumer_use_tax_wkst.county_tax_pct_post_oct': '0.07',
+        # N.C. tax withheld on statements other than the W-2
+        '1040.number_1099-int': '1', '1099-int:0.box_1': '900', '1099-int:0.box_15_1': 'NC', '1099-int:0.box_17_1': '31', '1099-int:0.payer': 'Bank',
+        '1040.number_1099-g': '1', '1099-g:0.box_1': '1200', '1099-g:0.box_10a_1': 'NC', '1099-g:0.box_11_1': '48',
+        '1040.schedule_1_additional_income': 'yes', '1040_s1.unemployment_income': '1200',
     })),
     Base('B7-dense', ['1040'], {
         '1040.number_w-2': '2', 'w-2:1.belongs_to': 'spouse', '1040.filing_status': 'MarriedFilingJointly',
